@@ -89,7 +89,7 @@ PLAN = {
  'C07_r3m1': [('c12', 'ed-history')],
  'C07_r3m2': [('c07', 'overlap_join'), ('c05', 'uncached-ops')],
  'C08_r3m1': [('c08', 'matcher-missing'), ('c05', 'uncached-ops|cached-missing')],
- 'C08_r3m2': [('c03', 'join-1x2-flags|join-2x1'), ('c08', 'jaccard')],
+ 'C08_r3m2': [('c03', 'join-2x1-flags')],
  'C09_r3m1': [('c09', 'api-SuffixFilter')],
  'C09_r3m2': [('c09', 'api-overlap_coefficient'), ('c11', 'api-overlap_coefficient')],
  'C10_r3m1': [('c12', 'ed-history')],
